@@ -563,6 +563,11 @@ where
         layouter: &mut impl Layouter<F>,
         bits: &[AssignedBit<F>],
     ) -> Result<AssignedBigUint<F>, Error> {
+        // A big integer has at least one limb.
+        if bits.is_empty() {
+            return self.assign_fixed_biguint(layouter, BigUint::zero());
+        }
+
         let limbs = bits
             .chunks(LOG2_BASE as usize)
             .map(|chunk_bits| self.native_gadget.assigned_from_le_bits(layouter, chunk_bits))
@@ -589,6 +594,11 @@ where
     ) -> Result<AssignedBigUint<F>, Error> {
         assert!(LOG2_BASE.is_multiple_of(8));
         let nb_bytes_per_limb = LOG2_BASE as usize / 8;
+
+        // A big integer has at least one limb.
+        if bytes.is_empty() {
+            return self.assign_fixed_biguint(layouter, BigUint::zero());
+        }
 
         let limbs = bytes
             .chunks(nb_bytes_per_limb)
